@@ -163,6 +163,7 @@ def resolve_local(expr, binds, depth=3):
 
 def run(ctx):
     _run_main(ctx)
+    application_cache_rebuilt(ctx)
     access_check_covers_the_query(ctx)
 
 
@@ -509,3 +510,13 @@ def access_check_covers_the_query(ctx):
                       "attribute of a compare — are evaluated without a read grant, so the bind learns values it may not read",
                       file=f["file"], line=n.get("line"))
     ctx.floor(R, "LDAP event constructions with both filters", n_ev, 2)
+
+
+# ---------------------------------------------------------------------------------------------------------------------
+# application_auth_ldap tests the user's memberof against the *cached* application's linked_group. The cache is the stored
+# configuration only if LdapApplicationsWriteTransaction::reload rebuilds it wholesale (rules/lib/x_cache.py).
+
+def application_cache_rebuilt(ctx):
+    from .lib.x_cache import check_rebuilt_wholesale
+    check_rebuilt_wholesale(ctx, LIB, "K4-application-cache-rebuilt", "kanidmd_lib::idm::application::LdapApplicationsWriteTransaction::<'_>::reload",
+                            "after an application is re-linked to another group, members of the old group can still bind and members of the new one cannot")
